@@ -116,7 +116,7 @@ def resolveExpr (st : St K) (e : Expr) : Option Res :=
       | none => none
       | some (l, k) =>
         let ops := (if o.isOwner then [] else o.recipe) ++ l
-        some ⟨b, ops, k, resolve ob.layout ops, legalAll ops (ob.nr, ob.nc)⟩
+        some ⟨b, ops, k, resolve ob.layout ops, legalAll ops (ob.nr, ob.nc) && ob.isOwner⟩
 
 /-- does an `index` step act on a source that is not contiguous in memory (stride ≠ 1 with more than one
 element, or an already indexed source)?  These are the inputs of the known finding. -/
@@ -154,6 +154,16 @@ def hasIndex : List VOp → Bool
   | .index _ _ :: _ => true
   | _ :: r => hasIndex r
 
+/-- what the machine needs to know about the scalar type beyond the ring operations -/
+structure Scal (K : Type) where
+  absNat : K → Nat          -- |x| of a (small-integer) input as a natural number: magnitude bookkeeping
+  abs : K → K
+  sqrt : K → K
+  max : K → K → K
+  isZero : K → Bool
+  divides : K → K → Bool    -- `divides s x`: x / s is again an integer
+  ofNat : Nat → K
+
 /-- operations -/
 inductive Op (K : Type)
   | new (o nr nc : Nat) (vals : Array K)
@@ -188,6 +198,12 @@ inductive Op (K : Type)
   | sum (e : Expr)
   | get (e : Expr) (i j : Nat)
   | vassign (o : Nat) (e : Expr)
+  | sdiv (d : Expr) (s : K)             -- `/= s`
+  | norms (e : Expr)                    -- norm(), normRMS(), normInf()
+  | abs (e : Expr)                      -- abs()
+  | einv (e : Expr)                     -- elementwiseInvert()
+  | ediv (a b : Expr)                   -- elementwiseDivide(b)
+  | rcscale (e r c : Expr)              -- rowAndColScale(r, c)
 
 /-- result of a step: new state, result lines (already formatted by `fmt`), stores touched, or an exception -/
 inductive Outcome (K : Type)
@@ -246,7 +262,8 @@ def binIP (st : St K) (d s : Expr) (f : Dense K → Dense K → Dense K) (shapeR
     (mag : Nat → Nat → Nat) : Outcome K :=
   match resolveExpr st d, resolveExpr st s with
   | some rd, some rs =>
-    if !(rd.legal && rs.legal) || rd.owner == rs.owner || !shapeReq rd rs then .illegal else
+    -- source and destination may live in the same owner as long as they share no cell (`A.col(0) += A.col(1)`)
+    if !(rd.legal && rs.legal) || (rd.owner == rs.owner && !(rd.view.disjoint rs.view)) || !shapeReq rd rs then .illegal else
     let m := max (magOf st rd) (mag (magOf st rd) (magOf st rs))   -- cells outside the view keep their old values
     if m > cap then .illegal else
     .ok (writeRes st rd (f (denseRes st rd) (denseRes st rs)) m) [] [rd.owner]
@@ -287,8 +304,8 @@ def produce (st : St K) (o : Nat) (d : Dense K) (mag : Nat) (srcOwners : List Na
 
 def natAbsK (toNat : K → Nat) (x : K) : Nat := toNat x
 
-/-- the step function.  `absK` gives |x| of an input scalar as a natural number (inputs are small integers). -/
-def step (absK : K → Nat) (st : St K) : Op K → Outcome K
+/-- the step function -/
+def step [Div K] [OfNat K 1] (sc : Scal K) (st : St K) : Op K → Outcome K
   | .new o nr nc vals =>
     match st[o]? with
     | none => .illegal
@@ -300,7 +317,7 @@ def step (absK : K → Nat) (st : St K) : Op K → Outcome K
         match st[ob.base]? with
         | some bb => st.set! ob.base { bb with nviews := bb.nviews - 1 }
         | none => st
-      let m := vals.foldl (fun acc x => max acc (absK x + 3)) 0
+      let m := vals.foldl (fun acc x => max acc (sc.absNat x + 3)) 0
       let b1 : Bool := ob.kind == .row && nc == 1
       let ro : Bool := ob.kind == .mat && nr == 1 && nc != 1
       let fresh : Obj K := { emptyObj K o with nr := nr, nc := nc, born1 := b1, rowOrder := ro }
@@ -314,13 +331,13 @@ def step (absK : K → Nat) (st : St K) : Op K → Outcome K
       | none => .illegal
       | some (some cls) => .exc cls
       | some none =>
-        if ob.isOwner then .ok (assignOwner st o (Dense.const m n v) (absK v + 3)) [] [o]
+        if ob.isOwner then .ok (assignOwner st o (Dense.const m n v) (sc.absNat v + 3)) [] [o]
         else
           -- same shape: no-op resize, then setTo(v) through the view
           match st[ob.base]? with
           | some bb =>
             let rv := resolve bb.layout ob.recipe
-            .ok (st.set! ob.base { bb with store := writeView bb.store rv (fun _ _ => v), mag := max bb.mag (absK v + 3) }) [] [ob.base]
+            .ok (st.set! ob.base { bb with store := writeView bb.store rv (fun _ _ => v), mag := max bb.mag (sc.absNat v + 3) }) [] [ob.base]
           | none => .illegal
   | .resizeKeep o m n v =>
     match st[o]? with
@@ -332,7 +349,7 @@ def step (absK : K → Nat) (st : St K) : Op K → Outcome K
       | some none =>
         if !ob.isOwner then .ok st [] [ob.base] else
         let d : Dense K := ⟨m, n, fun i j => if i < ob.nr ∧ j < ob.nc then rget ob.store (resolve ob.layout []) i j else v⟩
-        .ok (assignOwner st o d (max ob.mag (absK v + 3))) [] [o]
+        .ok (assignOwner st o d (max ob.mag (sc.absNat v + 3))) [] [o]
   | .clear o =>
     match st[o]? with
     | none => .illegal
@@ -357,32 +374,33 @@ def step (absK : K → Nat) (st : St K) : Op K → Outcome K
     | some r =>
       if !r.legal || !(i < r.view.nr && j < r.view.nc) then .illegal else
       match st[r.owner]? with
-      | some ob => .ok (st.set! r.owner { ob with store := rset ob.store r.view i j v, mag := max ob.mag (absK v + 3) }) [] [r.owner]
+      | some ob => .ok (st.set! r.owner { ob with store := rset ob.store r.view i j v, mag := max ob.mag (sc.absNat v + 3) }) [] [r.owner]
       | none => .illegal
     | none => .illegal
-  | .fill e v => unIP st e (fun d => Dense.const d.nr d.nc v) (fun m => max m (absK v + 3))
+  | .fill e v => unIP st e (fun d => Dense.const d.nr d.nc v) (fun m => max m (sc.absNat v + 3))
   | .zero e => unIP st e (fun d => Dense.const d.nr d.nc 0) id
   | .sassign e v =>
     match resolveExpr st e with
     | some r =>
-      if r.kind == .mat then unIP st e (fun d => Dense.scalarMat d.nr d.nc v) (fun m => max m (absK v + 3))
-      else unIP st e (fun d => Dense.const d.nr d.nc v) (fun m => max m (absK v + 3))
+      if r.kind == .mat then unIP st e (fun d => Dense.scalarMat d.nr d.nc v) (fun m => max m (sc.absNat v + 3))
+      else unIP st e (fun d => Dense.const d.nr d.nc v) (fun m => max m (sc.absNat v + 3))
     | none => .illegal
   | .copy d s =>
     match resolveExpr st d, resolveExpr st s with
     | some rd, some rs =>
-      if !(rd.legal && rs.legal) || rd.owner == rs.owner then .illegal else
+      if !(rd.legal && rs.legal) then .illegal else
       let isWholeOwner := d.xs.isEmpty && ((st[d.obj]?.map (·.isOwner)).getD false)
-      if isWholeOwner then produce st d.obj (denseRes st rs) (magOf st rs) [rs.owner]
-      else if !sameShape rd rs then .illegal
+      if isWholeOwner then
+        if rd.owner == rs.owner then .illegal else produce st d.obj (denseRes st rs) (magOf st rs) [rs.owner]
+      else if !sameShape rd rs || (rd.owner == rs.owner && !(rd.view.disjoint rs.view)) then .illegal
       else .ok (writeRes st rd (denseRes st rs) (max (magOf st rd) (magOf st rs))) [] [rd.owner]
     | _, _ => .illegal
   | .add d s => binIP st d s Dense.add sameShape (· + ·)
   | .sub d s => binIP st d s Dense.sub sameShape (· + ·)
-  | .scale d s => unIP st d (fun x => x.scale s) (fun m => m * absK s)
+  | .scale d s => unIP st d (fun x => x.scale s) (fun m => m * sc.absNat s)
   | .negip d => unIP st d Dense.neg id
-  | .eadd d s => unIP st d (fun x => x.addScalar s) (fun m => m + absK s + 3)
-  | .esubfrom d s => unIP st d (fun x => x.subFromScalar s) (fun m => m + absK s + 3)
+  | .eadd d s => unIP st d (fun x => x.addScalar s) (fun m => m + sc.absNat s + 3)
+  | .esubfrom d s => unIP st d (fun x => x.subFromScalar s) (fun m => m + sc.absNat s + 3)
   | .emul d s => binIP st d s Dense.emul sameShape (fun a b => 2 * a * b)
   | .rowscale d s => binIP st d s Dense.rowScale (fun rd rs => rs.kind == .vec && rs.view.nr == rd.view.nr && rs.view.nc == 1)
       (fun a b => 2 * a * b)
@@ -423,7 +441,7 @@ def step (absK : K → Nat) (st : St K) : Op K → Outcome K
     match resolveExpr st a with
     | some ra =>
       if !ra.legal || kindOfIdx o != .mat then .illegal else
-      produce st o ((denseRes st ra).scale s) (magOf st ra * absK s) [ra.owner]
+      produce st o ((denseRes st ra).scale s) (magOf st ra * sc.absNat s) [ra.owner]
     | none => .illegal
   | .deep o a =>
     match resolveExpr st a with
@@ -462,8 +480,9 @@ def step (absK : K → Nat) (st : St K) : Op K → Outcome K
     match st[o]?, resolveExpr st e with
     | some ob, some r =>
       -- the handle must be a Matrix_ that nobody views; the source must be another owner's data, seen through
-      -- a view with the same element type (even number of negations and of Hermitian transposes) and regular spacing
-      if kindOfIdx o != .mat || !r.legal || r.owner == o || negAll r.ops || conjAll r.ops || hasIndex r.ops then .illegal else
+      -- a view with an un-negated element type (for complex elements an odd number of Hermitian transposes changes the
+      -- element type too; the harness's complex variant then only follows the reference) and regular spacing
+      if kindOfIdx o != .mat || !r.legal || r.owner == o || negAll r.ops || hasIndex r.ops then .illegal else
       if ob.isOwner && (ob.nviews != 0 || ob.locked) then .illegal else
       let st1 := if ob.isOwner then st else
         match st[ob.base]? with
@@ -473,9 +492,51 @@ def step (absK : K → Nat) (st : St K) : Op K → Outcome K
       | some bb =>
         let st2 := st1.set! r.owner { bb with nviews := bb.nviews + 1 }
         let h : Obj K := ⟨.mat, false, r.view.nr, r.view.nc, #[], r.owner, r.ops, r.kind, 0, false, 0, false, false⟩
-        .ok (st2.set! o h) [] [r.owner]
+        .ok (st2.set! o h) [] [r.owner, o]
       | none => .illegal
     | _, _ => .illegal
+  | .sdiv d s =>
+    -- `/= s` multiplies by `1/s`: exact for s = ±1, ±2, ±4; only generated when every viewed entry is divisible
+    match resolveExpr st d with
+    | some rd =>
+      if !rd.legal || sc.isZero s || !((denseRes st rd).allEl (sc.divides s)) then .illegal else
+      unIP st d (fun x => x.scale (1 / s)) id
+    | none => .illegal
+  | .norms e =>
+    match resolveExpr st e with
+    | some r =>
+      if !r.legal || 2 * (r.view.nr * r.view.nc) * magOf st r * magOf st r > cap then .illegal else
+      let d := denseRes st r
+      let n2 := d.normSqr
+      let nelt := r.view.nr * r.view.nc
+      let rms : K := if nelt == 0 then 0 else sc.sqrt (n2 / sc.ofNat nelt)
+      .ok st ([("norm", ⟨1, 1, fun _ _ => sc.sqrt n2⟩), ("normRMS", ⟨1, 1, fun _ _ => rms⟩)] ++
+              (if r.kind == .vec then [("normInf", ⟨1, 1, fun _ _ => (d.mapEl sc.abs).foldEl sc.max 0⟩)] else [])) []
+    | none => .illegal
+  | .abs e =>
+    match resolveExpr st e with
+    | some r => if !r.legal then .illegal else .ok st [("abs", (denseRes st r).mapEl sc.abs)] []
+    | none => .illegal
+  | .einv e =>
+    match resolveExpr st e with
+    | some r =>
+      let d := denseRes st r
+      if !r.legal || !(d.allEl fun x => !sc.isZero x) then .illegal else .ok st [("einv", d.einv)] []
+    | none => .illegal
+  | .ediv a b =>
+    match resolveExpr st a, resolveExpr st b with
+    | some ra, some rb =>
+      let db := denseRes st rb
+      if !(ra.legal && rb.legal) || !sameShape ra rb || !(db.allEl fun x => !sc.isZero x) then .illegal else
+      .ok st [("ediv", (denseRes st ra).ediv db)] []
+    | _, _ => .illegal
+  | .rcscale e r c =>
+    match resolveExpr st e, resolveExpr st r, resolveExpr st c with
+    | some re, some rr, some rc =>
+      if !(re.legal && rr.legal && rc.legal) || rr.kind != .vec || rc.kind != .vec || rr.view.nr != re.view.nr
+          || rc.view.nr != re.view.nc || 4 * magOf st re * magOf st rr * magOf st rc > cap then .illegal else
+      .ok st [("rcscale", (denseRes st re).rowAndColScale (denseRes st rr) (denseRes st rc))] []
+    | _, _, _ => .illegal
 
 /-- full logical contents of handle `i` -/
 def contents (st : St K) (i : Nat) : Dense K :=
